@@ -12,6 +12,9 @@ pub struct NE(pub u8);
 pub fn key_eq<T>(_x: &T) -> u8 { 0 }
 pub fn key_ne<T>(_x: &T) -> NE { NE(0) }
 pub fn key_f<T>(_x: &T) -> f32 { 0.0 }
+/// key functions named like helpers the generator declares next to the key expression
+pub fn _eq<T>(_x: &T) -> NE { NE(0) }
+pub fn _f<T>(_x: &T) -> u8 { 0 }
 pub fn by_b<T>(_a: &T, _b: &T) -> bool { true }
 pub fn by_o<T>(_a: &T, _b: &T) -> core::cmp::Ordering { core::cmp::Ordering::Equal }
 '''
@@ -26,7 +29,7 @@ CONFIGS = [
     ("#[eq(by = by_b)] #[ord(key = key_ne(&$))]", None),
     ("#[partial_eq(ignore)] #[eq(ignore)]", None),
     ("#[eq(key = key_ne(&$))] #[ord(by = by_o)]", "ne"), ("#[eq(key = key_eq(&$))] #[ord(by = by_o)]", "eq"), ("#[eq(key = key_f(&$))] #[ord(key = key_eq(&$))]", "ne"),
-    ("#[eq(by = by_b)] #[ord(by = by_o)]", None), ("#[ord(key = key_ne(&$))] #[partial_eq(key = key_eq(&$))]", "ne"),
+    ("#[eq(by = by_b)] #[ord(by = by_o)]", None), ("#[eq(key = _eq(&$))]", "ne"), ("#[ord(key = _eq(&$))]", "ne"), ("#[eq(key = _f(&$))]", "eq"), ("#[ord(key = key_ne(&$))] #[partial_eq(key = key_eq(&$))]", "ne"),
 ]
 FIELD_TYPES = [("u8", True), ("NE", False), ("f32", False), ("Option<NE>", False), ("Vec<u8>", True), ("T", None)]
 
@@ -49,7 +52,7 @@ def programs(ctx):
     i = 0
     combos = list(itertools.product(CONFIGS, FIELD_TYPES, ("struct", "tuple", "enum", "enum_tuple"), (False, True)))
     if ctx.quick:
-        combos = rng.sample(combos, 130) + [c for c in combos if c[2] == "enum_tuple" and c[1][0] in ("u8", "NE") and not c[3]]
+        combos = [c for c in combos if "_eq(" in c[0][0] or "_f(" in c[0][0]][:24] + rng.sample(combos, 130) + [c for c in combos if c[2] == "enum_tuple" and c[1][0] in ("u8", "NE") and not c[3]]
     for (attr, comp), (fty, fty_eq), shape, generic_inst_ne in combos:
         generic = fty == "T"
         if generic:
